@@ -52,6 +52,10 @@ CLAIMED = {
             "Shared rule driver (call-graph fact) plus, for every diagnostic construction site reachable from the standalone entry, a guard analysis: no site may fire on the `absent` edge of a schema-derived lookup without evidence that a schema is present, and every schema-dependent variant (frozen classification) must be under positive schema evidence - decided per site over dominating edges, for all documents at once.",
             "The schema-(in)dependence classification of diagnostic variants and the enumerated guard idioms are the trusted tables; a new variant or idiom fails closed.",
             "call-graph reachability + dominator edge-fact (GUARD) analysis with type-based schema-evidence over rustc MIR", False),
+    "C13": ("other",
+            "Sibling agreement between the three places that compare an extension's kind with a definition's kind (18 sites: all must report on the non-matching branch), first-wins shape of the sticky insert helpers, order discipline of the orphan queue, and one FileId per source text.",
+            "Decides necessary structural conditions of order-independence; does not compare diagnostics of sequential and concatenated builds.",
+            "sibling (SIB) must-pass-through rule per match edge over rustc MIR; who-calls on the orphan queue", False),
 }
 
 NOT_APPLICABLE = {
